@@ -364,6 +364,39 @@ pub fn run(ctx: &Ctx, rep: &mut Report) {
             }
         }
     }
+    // joint sweeps of the date / time blocks: every value of the 20 bits month-day-hour-minute
+    // (ETA of type 5, UTC of types 4 and 11) and of the 17 bits hour-minute-second, in changing
+    // random contexts - the fields of such a block are read next to each other and invite a
+    // combined "nothing entered" test that a field-by-field sweep never meets
+    {
+        for (bname, start, width) in [("t5-full", 274usize, 20usize), ("t4", 52, 20), ("t4", 61, 17), ("t11", 52, 20), ("t11", 61, 17)] {
+            let b = gen::BRANCHES.iter().find(|b| b.name == bname).expect("branch");
+            let mut bits = fresh(b, &mut r);
+            for v in 0..(1u64 << width) {
+                if (v / 1024) % ctx.nshards != ctx.shard {
+                    continue;
+                }
+                if !ctx.thorough() && bname != "t5-full" && (v / 1024) % 4 != 0 && width == 20 {
+                    // quick tier: the UTC month-to-minute block of types 4 / 11 is swept in every fourth
+                    // block of 1024 values (all hours and minutes, months 0, 4, 8, 12) - the ETA block fully
+                    continue;
+                }
+                if v % 32 == 0 {
+                    bits = fresh(b, &mut r);
+                }
+                bits.put(start, width, v);
+                n += 1;
+                let via = if n % 16 == 5 { Via::Line } else if n % 16 == 11 { Via::Armor } else { Via::Raw };
+                let vd = gen::run_message(rep, PID, Some(4), &bits, via, b.name);
+                rep.count(match vd.outcome {
+                    "ok" => "decoded",
+                    "err" => "rejected",
+                    _ => "panicked",
+                });
+            }
+            rep.class(format!("{}|joint-date-time-block|bits{}+{}", bname, start, width));
+        }
+    }
     corner_sampler(ctx, rep, PID, 4, &mut r, 20_000, 400_000);
     super::c14::wrap_probe(ctx, rep, PID, crate::gen::pm(&[4]), &mut r);
     super::c14::giant_buffer_probe(ctx, rep, PID, crate::gen::pm(&[4]), &mut r);
